@@ -47,6 +47,9 @@ func c15docs() []c15doc {
 		{"obj17", big(17, false), nil},
 		{"obj17-dup", big(17, true), nil},
 		{"obj16", big(16, false), nil},
+		// 20 pairs, k0 repeated as the 19th: a lookup can leave more than 16 pairs loaded with the
+		// node still lazy, and a later one then loads the duplicate
+		{"obj20-dup-late", strings.Replace(big(20, false), `"k18":`, `"k0":`, 1), nil},
 		{"arr17", arr17, []interface{}{8}},
 		{"empty-obj", `{}`, nil},
 		{"empty-arr", `[]`, nil},
